@@ -128,12 +128,16 @@ example : ∃ s' i, addFile newFileSet "(main)" (-1) 10 = .ok (s', i) := ⟨_, _
 
 /-! ### 3. line tables of texts; k prepended newlines -/
 
-/-- The table the scanner builds for any text is well-formed (first entry 0, strictly
-    increasing, later entries inside the text) and all its entries are offsets of the
-    text, so `position_spec` applies to every scanned file. -/
+/-- The table the scanner builds for any text: exactly 0 and the offsets that follow a
+    newline byte and are still inside the text; it is well-formed (first entry 0, strictly
+    increasing, later entries inside the text), so `position_spec` applies to every
+    scanned file. -/
 theorem lines_spec (text : List UInt8) :
-    WFLines (scanLines text) text.length ∧ ∀ v ∈ scanLines text, 0 ≤ v ∧ v ≤ (text.length : Int) :=
-  ⟨scanLines_wf text, scanLines_range text⟩
+    WFLines (scanLines text) text.length ∧
+    (∀ v ∈ scanLines text, 0 ≤ v ∧ v ≤ (text.length : Int)) ∧
+    (∀ v : Int, v ∈ scanLines text ↔
+      v = 0 ∨ ∃ j : Nat, text[j]? = some 10 ∧ v = (j : Int) + 1 ∧ v < (text.length : Int)) :=
+  ⟨scanLines_wf text, scanLines_range text, scanLines_mem text⟩
 
 /-- the scanned file of a text -/
 def fileOfText (name : String) (base : Int) (text : List UInt8) : SrcFile :=
